@@ -550,6 +550,46 @@ func passAnte(c *Ctx) error {
 			}
 		}
 	}
+	// the voting-power test is applied to EVERY MsgDelegate / MsgBeginRedelegate: in each of the two cases the projection is
+	// assigned, and `if projectedVotingPower.GTE(maxVotingPower) { return … }` stands, as direct statements of the case
+	// body — not inside another condition
+	var capTests []string
+	if vm != nil && vm.Body != nil {
+		for _, st := range vm.Body.List {
+			ts, ok := st.(*ast.TypeSwitchStmt)
+			if !ok {
+				continue
+			}
+			for _, cc := range ts.Body.List {
+				cl := cc.(*ast.CaseClause)
+				for _, t := range cl.List {
+					name := strings.TrimPrefix(c.Src(t), "*")
+					if name != "stakingtypes.MsgDelegate" && name != "stakingtypes.MsgBeginRedelegate" {
+						continue
+					}
+					proj, test := false, false
+					for _, b := range cl.Body {
+						switch v := b.(type) {
+						case *ast.AssignStmt:
+							if len(v.Lhs) == 1 && c.Src(v.Lhs[0]) == "projectedVotingPower" && strings.Contains(c.Src(v.Rhs[0]), "ProjectedVotingPower(") {
+								proj = true
+							}
+						case *ast.IfStmt:
+							if v.Init == nil && c.Src(v.Cond) == "projectedVotingPower.GTE(maxVotingPower)" && proj {
+								if n := len(v.Body.List); n > 0 {
+									if r, ok := v.Body.List[n-1].(*ast.ReturnStmt); ok && len(r.Results) == 1 && c.Src(r.Results[0]) != "nil" {
+										test = true
+									}
+								}
+							}
+						}
+					}
+					capTests = append(capTests, fmt.Sprintf("%s: %v", name, proj && test))
+				}
+			}
+		}
+	}
+	sb.WriteString("/-- per (re)delegation case of validateMsg: the voting-power test is an unconditional statement of the case -/\ndef capTests : List String := " + leanStrList(capTests) + "\n")
 	sb.WriteString("/-- parameter types of getValidator -/\ndef getValidatorParams : List String := " + leanStrList(gvParams) + "\n")
 	sb.WriteString("/-- getValidator returns only the validator it read from the staking keeper (else the empty struct with an error) -/\ndef getValidatorStoreOnly : Option Bool := " + gvStoreOnly + "\n")
 	sb.WriteString(fmt.Sprintf("/-- some function of the package builds a stakingtypes.Validator value of its own -/\ndef inventsValidators : Bool := %v\n", invents))
